@@ -214,9 +214,12 @@ def find(
                     include,
                     os.path.dirname(e["file"]),
                 )
-                if include_file and file_platform.process_include(
-                    include_file,
-                ):
+                if not include_file:
+                    log.warning(
+                        f"{e['file']}:0: user include '{include}' not found\n"
+                        + f"    0 | -include {include}",
+                    )
+                elif file_platform.process_include(include_file):
                     state.insert_file(include_file)
                     state.associate(include_file, file_platform)
 
